@@ -138,6 +138,12 @@ func typeAlign(typID, length int) int {
 		return 8
 	case OidInt8Range, OidTsRange, OidTsTzRange: // a range type has the alignment of a 'd' aligned subtype
 		return 8
+	case 4533, 4534, 4536: // tsmultirange, tstzmultirange, int8multirange (PostgreSQL 14+): as their range types
+		return 8
+	case 2970, 5038, 5069: // txid_snapshot, pg_snapshot (varlena holding 8-byte xids), xid8: typalign 'd'
+		return 8
+	case 6152, 6153, 6157, 2949, 5039, 271: // the array types of the six types above
+		return 8
 		
 	// Int alignment (4 bytes)
 	case OidInt4, OidOid, OidFloat4, OidDate, OidXid, OidCid:
